@@ -42,9 +42,20 @@ type QFact struct {
 	guard   Term
 	varSym  string
 	varSort Sort // sort of the bound variable ("" = Int)
-	varPtr  bool // the variable ranges over references ("*T"): never instantiated at integer terms
+	ref     bool // the bound variable is a typed reference ("forall c *T"): never instantiated at index arithmetic
 	body    Term // range ==> body, with varSym free
 	unfolds []unfoldT
+}
+
+// SkolemFn is the skolem function of an existential that occurs positively
+// under a universally quantified assumption: "forall v :: H ==> exists i :: B"
+// is assumed in the form "forall v :: H ==> B[i := f(v)]", so that f(sk) is a
+// named candidate witness when a goal about sk needs one.
+type SkolemFn struct {
+	lineIdx int
+	name    string
+	dom     Sort
+	ref     bool
 }
 
 // Witness is a skolem constant of an assumed existential.
@@ -140,10 +151,14 @@ func (vc *VC) assumeClause(guard Term, env *Env, cl *Clause) {
 			continue
 		}
 		if q.Forall {
-			vc.qfacts = append(vc.qfacts, &QFact{lineIdx: len(vc.lines), guard: and(guard, h), varSym: v, varSort: q.varSort(), varPtr: strings.HasPrefix(q.VarTyp, "*"), body: implies(rng, body), unfolds: unf})
+			vc.qfacts = append(vc.qfacts, &QFact{lineIdx: len(vc.lines), guard: and(guard, h), varSym: v, varSort: q.varSort(), ref: q.isRef(), body: implies(rng, body), unfolds: unf})
+			vc.skolemiseInner(guard, h, env, q, v, rng)
 			continue
 		}
 		w := vc.fresh("ex:"+q.Var, q.varSort())
+		if q.isRef() {
+			vc.refTerms[w.S] = true
+		}
 		vc.assume(and(guard, h), subst(and(rng, body), v, w))
 		vc.witnesses = append(vc.witnesses, &Witness{lineIdx: len(vc.lines), t: w})
 		// a universally quantified conjunct under the existential becomes a
@@ -163,9 +178,116 @@ func (vc *VC) assumeClause(guard Term, env *Env, cl *Clause) {
 			if err != nil {
 				continue
 			}
-			vc.qfacts = append(vc.qfacts, &QFact{lineIdx: len(vc.lines), guard: and(guard, h, ih), varSym: iv, varSort: iq.varSort(), varPtr: strings.HasPrefix(iq.VarTyp, "*"), body: implies(irng, ibody)})
+			vc.qfacts = append(vc.qfacts, &QFact{lineIdx: len(vc.lines), guard: and(guard, h, ih), varSym: iv, varSort: iq.varSort(), ref: iq.isRef(), body: implies(irng, ibody)})
 		}
 	}
+}
+
+// skolemiseInner: for an assumed "forall v :: rng ==> (... H ==> exists i :: B ...)"
+// whose existential is reached from the body through && and the right-hand
+// sides of ==> only (a positive position), assume also
+// "forall v :: rng && H ==> B[i := f(v)]" for a new function f, and remember f.
+func (vc *VC) skolemiseInner(guard, h Term, env *Env, q *EQuant, v string, rng Term) {
+	qs := q.varSort()
+	qt, err := env.quantVarType(q)
+	if err != nil {
+		return
+	}
+	benv := env.with(map[string]TV{q.Var: {Term{v, qs}, qt}})
+	benv.bound = true
+	for _, ip := range clauseParts(q.Body) {
+		iq, ok := ip.concl.(*EQuant)
+		if !ok || iq.Forall || (iq.VarTyp != "" && iq.VarTyp != "int") {
+			continue
+		}
+		ih, err := benv.evalHyps(ip.hyps)
+		if err != nil {
+			continue
+		}
+		iv, irng, ibody, err := benv.quantParts(iq)
+		if err != nil {
+			continue
+		}
+		vc.nfresh++
+		fname := quote(fmt.Sprintf("skf:%s!%d", iq.Var, vc.nfresh))
+		vc.declare("skf:"+fname, fmt.Sprintf("(declare-fun %s (%s) Int)", fname, qs))
+		app := Term{"(" + fname + " " + v + ")", SInt}
+		fact := implies(and(rng, ih), subst(and(irng, ibody), iv, app))
+		vc.assume(and(guard, h), T(SBool, "(forall ((%s %s)) (! %s :pattern (%s)))", v, qs, fact.S, app.S))
+		vc.qfacts = append(vc.qfacts, &QFact{lineIdx: len(vc.lines), guard: and(guard, h), varSym: v, varSort: qs, ref: q.isRef(), body: fact})
+		vc.skolemFns = append(vc.skolemFns, &SkolemFn{lineIdx: len(vc.lines), name: fname, dom: qs, ref: q.isRef()})
+	}
+}
+
+// existentialGoal rebuilds the body of a universally quantified goal that has
+// been skolemised at sk, offering candidate witnesses to every existential
+// that is reached through && and the right-hand sides of ==>: the values at sk
+// of the skolem functions of the assumptions, and the ends of the
+// existential's own range. Each added disjunct implies the existential, so
+// the strengthened goal implies the original one.
+func (vc *VC) existentialGoal(env *Env, q *EQuant, sk Term) (Term, bool) {
+	parts := clauseParts(q.Body)
+	eligible := false
+	for _, ip := range parts {
+		if iq, ok := ip.concl.(*EQuant); ok && !iq.Forall && (iq.VarTyp == "" || iq.VarTyp == "int") && iq.Lo != nil {
+			eligible = true
+		}
+	}
+	if !eligible {
+		return Term{}, false
+	}
+	qt, err := env.quantVarType(q)
+	if err != nil {
+		return Term{}, false
+	}
+	// sk is declared with the obligation only: evaluate as under a binder, so
+	// that nothing about it is added to the shared prefix
+	senv := env.with(map[string]TV{q.Var: {sk, qt}})
+	senv.bound = true
+	any := false
+	goal := tTrue
+	for _, ip := range parts {
+		ih, err := senv.evalHyps(ip.hyps)
+		if err != nil {
+			return Term{}, false
+		}
+		iq, ok := ip.concl.(*EQuant)
+		if !ok || iq.Forall || (iq.VarTyp != "" && iq.VarTyp != "int") || iq.Lo == nil {
+			c, err := senv.evalBool(ip.concl)
+			if err != nil {
+				return Term{}, false
+			}
+			goal = and(goal, implies(ih, c))
+			continue
+		}
+		orig, err := senv.evalBool(ip.concl)
+		if err != nil {
+			return Term{}, false
+		}
+		iv, irng, ibody, err := senv.quantParts(iq)
+		if err != nil {
+			return Term{}, false
+		}
+		var cands []Term
+		for _, f := range vc.skolemFns {
+			if f.lineIdx <= len(vc.lines) && f.dom == sk.Sort && f.ref == q.isRef() {
+				cands = append(cands, Term{"(" + f.name + " " + sk.S + ")", SInt})
+			}
+		}
+		if lo, err := senv.eval(iq.Lo); err == nil {
+			cands = append(cands, lo.T)
+		}
+		if hi, err := senv.eval(iq.Hi); err == nil {
+			cands = append(cands, sub(hi.T, intLit(1)))
+		}
+		disj := []Term{orig}
+		for _, c := range cands {
+			disj = append(disj, subst(and(irng, ibody), iv, c))
+		}
+		goal = and(goal, implies(ih, or(disj...)))
+		any = true
+	}
+	return goal, any
 }
 
 // obligeClause emits one obligation per conjunct of a clause. Universally
@@ -198,6 +320,9 @@ func (vc *VC) obligeClause(kind, label, site string, guard Term, env *Env, cl *C
 			vc.nfresh++
 			sk := Term{quote(fmt.Sprintf("sk:%s!%d", q.Var, vc.nfresh)), q.varSort()}
 			goal := subst(implies(rng, body), v, sk)
+			if eg, ok := vc.existentialGoal(env, q, sk); ok {
+				goal = implies(subst(rng, v, sk), eg)
+			}
 			o := vc.oblige(kind, label, psite, and(guard, h), goal, src)
 			if o == nil {
 				continue
@@ -211,9 +336,30 @@ func (vc *VC) obligeClause(kind, label, site string, guard Term, env *Env, cl *C
 				continue
 			}
 			if sk.Sort == SStr {
-				// string-keyed quantifier (map keys): instances at the skolem
-				// and at the string locals (e.g. the key of a range loop)
-				vc.addInstances(o, append([]Term{sk}, vc.strCellTerms(env)...))
+				// string-keyed quantifier (map keys): instances at the skolem,
+				// at the string witnesses of assumed existentials and at the
+				// string locals (e.g. the key of a range loop)
+				cands := []Term{sk}
+				for _, w := range vc.witnesses {
+					if w.lineIdx <= len(vc.lines) && w.t.Sort == SStr {
+						cands = append(cands, w.t)
+					}
+				}
+				vc.addInstances(o, append(cands, vc.strCellTerms(env)...))
+				continue
+			}
+			if q.isRef() {
+				// a goal about all references of a type: the quantified
+				// assumptions over references at the skolem constant and at
+				// the reference witnesses (no index arithmetic)
+				vc.refTerms[sk.S] = true
+				cands := []Term{sk}
+				for _, w := range vc.witnesses {
+					if w.lineIdx <= len(vc.lines) && vc.refTerms[w.t.S] {
+						cands = append(cands, w.t)
+					}
+				}
+				vc.addInstances(o, cands)
 				continue
 			}
 			vc.addInstances(o, vc.instCandidates([]Term{sk}, env))
@@ -318,21 +464,20 @@ func (vc *VC) addInstancesPtr(o *Obligation, cands []Term, ptrCands []Term) {
 		if qf.lineIdx > o.PrefixLen {
 			continue
 		}
-		if qf.varPtr {
+		if qf.ref {
+			// (the general loop below additionally instantiates reference
+			// facts at the known reference terms)
 			for _, c := range ptrCands {
 				o.Extra = append(o.Extra, "(assert "+implies(qf.guard, subst(qf.body, qf.varSym, c)).S+")")
 			}
-			continue
 		}
 		for _, c := range cands {
-			if (qf.varSort == SStr) != (c.Sort == SStr) || qf.varPtr {
-				// reference-typed quantifiers are left to the solver's own
-				// instantiation (the quantified fact is in the context)
+			if (qf.varSort == SStr) != (c.Sort == SStr) || qf.ref != vc.refTerms[c.S] {
 				continue
 			}
-			o.Extra = append(o.Extra, "(assert "+implies(qf.guard, subst(qf.body, qf.varSym, c)).S+")")
+			o.Inst = append(o.Inst, "(assert "+implies(qf.guard, subst(qf.body, qf.varSym, c)).S+")")
 			for _, u := range qf.unfolds {
-				o.Extra = append(o.Extra, "(assert "+subst(eq(u.app, u.body), qf.varSym, c).S+")")
+				o.Inst = append(o.Inst, "(assert "+subst(eq(u.app, u.body), qf.varSym, c).S+")")
 			}
 		}
 	}
